@@ -3,6 +3,8 @@
    reasons, client disconnect, TerminateStream(403), timers, wake-ups; attempt indices unrestricted), the predicate holds.
    Discharged by exhaustive reachability (Proofs/ProxyReach.v) + vm_compute. *)
 From Coq Require Import List ZArith Bool Arith Lia.
+From RecordUpdate Require Import RecordSet.
+Import RecordSetNotations.
 From MV Require Import Model.ProxyBuiltin.
 From MV Require Import Model.Proxy Model.ProxySpec Proofs.ProxyReach.
 Import ListNotations.
@@ -93,10 +95,11 @@ Definition good_c10_gauge (c : cfg) (x : ist) : bool :=
   let s := i_st x in let g := i_gs x in
   ((g_gauge g =? 0) || (g_gauge g =? -1)) && Bool.eqb (cleaned s) (g_gauge g =? -1) &&
   implb' (quiescent s && no_defect s) (g_gauge g =? -1).
-Definition good_c10_res (c : cfg) (x : ist) : bool :=
+Definition good_c10_res (src : srcp) (c : cfg) (x : ist) : bool :=
   let s := i_st x in let g := i_gs x in
   (0 <=? g_res_min g) && (g_res g <=? 1) && (rc s =? g_res g) &&
-  (if c_max_retries c =? 0 then g_res g =? 0 else Bool.eqb (reserved s) (g_res g =? 1)) &&
+  (* the resource is 1 exactly while this request holds a reservation (0 throughout where it is not counted) *)
+  (if res_off src c then g_res g =? 0 else Bool.eqb (reserved s) (g_res g =? 1)) &&
   implb' (cleaned s) (g_res g =? 0).
 
 (* C10: upstream streams (the pool's Requests resource / UpstreamRequestActive hang on them): a retry never starts while the
@@ -126,7 +129,9 @@ Definition good_c14 (c : cfg) (x : ist) : bool :=
 (* C17 retry part *)
 Definition good_c17 (src : srcp) (c : cfg) (x : ist) : bool :=
   let g := i_gs x in
-  (g_new g <=? 1 + budget src c)%nat && negb (g_new_after_start g) && negb (g_new_unchosen g) && negb (g_fin_bad g).
+  (g_new g <=? 1 + budget src c)%nat && negb (g_new_after_start g) && negb (g_new_unchosen g) && negb (g_fin_bad g) &&
+  (* a response is judged by the retry state with its own status, also when the status travels through the context variable *)
+  negb (x_stale (i_st x)).
 
 (* C03 time-out liveness: a parked worker (not one-way, no defect pattern) is guarded by an armed timer, and from a parked state
    with the global timer armed and nothing else pending, the expiry followed by the worker's reaction yields the 504 hijack reply *)
@@ -154,14 +159,14 @@ Definition good_c14_reply (c : cfg) (x : ist) : bool :=
           match g_reply_kind g with Some (KUp, _) => false | Some _ => true | None => false end).
 
 Definition good_all (src : srcp) (c : cfg) (x : ist) : bool :=
-  good_c03 c x && good_timeout src c x && good_c10_gauge c x && good_c10_res c x && good_c10_streams c x && good_c02 c x && good_c14 c x && good_c14_reply c x &&
+  good_c03 c x && good_timeout src c x && good_c10_gauge c x && good_c10_res src c x && good_c10_streams c x && good_c02 c x && good_c14 c x && good_c14_reply c x &&
   good_c17 src c x.
 
 (* ---------- configuration families ---------- *)
 Definition mk (ow d t : bool) (r : route) (nh : nat) (ron : bool) (nr : nat) (codes : list Z) (tt : bool) (mx : Z)
               (rf : list rfilter) (sf : list sfilter) (pool : list poolres) : cfg :=
   {| c_oneway := ow; c_data := d; c_trailers := t; c_route := r; c_nhosts := nh; c_retry_on := ron; c_num_retries := nr;
-     c_codes := codes; c_try_timeout := tt; c_max_retries := mx; c_recv := rf; c_send := sf; c_pool := pool; c_delay := []; c_snd_err_hdr := false; c_snd_err_data := false; c_snd_err_trl := false |}.
+     c_codes := codes; c_try_timeout := tt; c_max_retries := mx; c_recv := rf; c_send := sf; c_pool := pool; c_delay := []; c_snd_err_hdr := false; c_snd_err_data := false; c_snd_err_trl := false; c_http := false |}.
 
 Definition req_shapes : list (bool * bool * bool) :=
   [(false, false, false); (false, true, false); (false, true, true); (true, false, false)].
@@ -237,5 +242,17 @@ Definition b_reqs : list breq :=
 Definition fam_builtin : list cfg :=
   flat_map (fun r => map (fun q => builtin_cfg bl_all r q) b_reqs) b_routes ++
   flat_map (fun r => map (fun body => builtin_cfg bl_pl r {| q_body := body; q_fault_hdr := false; q_member := [] |}) [None; Some 5; Some 20]) b_routes.
+
+(* the HTTP flavour (status mapping reads the x-mosn-status variable of the request context): retry policies x per-try x breaker x
+   pool scripts, with and without a status-code list *)
+Definition fam_http : list cfg :=
+  flat_map (fun codes =>
+  flat_map (fun tt =>
+  flat_map (fun mx =>
+  map (fun pool => mk false false false RouteForward 2 true (match codes with [] => 0 | _ => 2 end) codes tt mx [] [] pool <| c_http := true |>) pools)
+  [0; 1]) [false; true]) [[]; [503]] ++
+  [mk false true false RouteForward 2 true 0 [] true 0 [] [] [] <| c_http := true |>;
+   mk false false false RouteForward 2 false 0 [] false 0 [] [] [PoolConnFail] <| c_http := true |>;
+   mk false false false RouteForward 2 true 0 [] false 0 [{| f_phase := 0; f_code := 403; f_verdicts := [] |}] [] [] <| c_http := true |>].
 
 Definition chunkn (n k : nat) (l : list cfg) : list cfg := firstn n (skipn (n * k) l).
